@@ -10,6 +10,7 @@ package target
 import (
 	"context"
 	"fmt"
+	"strings"
 	"testing"
 
 	"github.com/openconfig/gnmi/proto/gnmi"
@@ -82,12 +83,18 @@ func TestVerifReplayGnmiSet(t *testing.T) {
 	fn := "(*datastore/target.gnmiTarget).Set"
 	ctx := context.Background()
 	n := 0
+	bare := func() *sdcio_schema.Device {
+		d := vrgConf("d", true)
+		d.Choices = nil // the presence container /choices/case2 is added as an entry of its own below (ygot drops empty containers)
+		return d
+	}
 	scenarios := []struct {
 		name            string
 		stored, revised *sdcio_schema.Device
 		wantUpd         string // none | some
 		wantDel         string // none | some
 	}{
+		{"intent with a bare presence container re-applied unchanged, running (synced from the device) has no entry for the container itself", bare(), bare(), "none", "none"},
 		{"intent re-applied unchanged", vrgConf("d", true), vrgConf("d", true), "none", "none"},
 		{"list entry removed from the intent", vrgConf("d", true), vrgConf("d", false), "none", "some"},
 		{"leaf value changed", vrgConf("d", true), vrgConf("e", true), "some", "none"},
@@ -102,6 +109,14 @@ func TestVerifReplayGnmiSet(t *testing.T) {
 			}
 			conv := utils.NewConverter(scb)
 			stored := vrgUpdates(t, ctx, conv, sc.stored, "owner1", 5)
+			presence := func(owner string, prio int32) *cache.Update {
+				b, _ := proto.Marshal(&sdcpb.TypedValue{Value: &sdcpb.TypedValue_EmptyVal{}})
+				return cache.NewUpdate([]string{"choices", "case2"}, b, prio, owner, 0)
+			}
+			isBare := strings.Contains(sc.name, "bare presence container")
+			if isBare {
+				stored = append(stored, presence("owner1", 5))
+			}
 			cc := mockcacheclient.NewMockClient(ctrl)
 			testhelper.ConfigureCacheClientMock(t, cc, stored, nil, nil, nil)
 			tc := tree.NewTreeContext(tree.NewTreeCacheClient("dev1", cc), scb, "owner1")
@@ -115,8 +130,23 @@ func TestVerifReplayGnmiSet(t *testing.T) {
 			if _, err := root.LoadIntendedStoreOwnerData(ctx, "owner1", false); err != nil {
 				t.Fatal(err)
 			}
-			vrgAdd(t, ctx, root, vrgUpdates(t, ctx, conv, sc.revised, "owner1", 5), flagNew)
-			vrgAdd(t, ctx, root, vrgUpdates(t, ctx, conv, sc.stored, tree.RunningIntentName, tree.RunningValuesPrio), plain)
+			revised := vrgUpdates(t, ctx, conv, sc.revised, "owner1", 5)
+			if isBare {
+				revised = append(revised, presence("owner1", 5))
+			}
+			vrgAdd(t, ctx, root, revised, flagNew)
+			running := vrgUpdates(t, ctx, conv, sc.stored, tree.RunningIntentName, tree.RunningValuesPrio)
+			if strings.Contains(sc.name, "bare presence container") {
+				// a sync from the device reports leafs, not the containers themselves
+				var leafs []*cache.Update
+				for _, u := range running {
+					if tv, _ := u.Value(); tv.GetEmptyVal() == nil {
+						leafs = append(leafs, u)
+					}
+				}
+				running = leafs
+			}
+			vrgAdd(t, ctx, root, running, plain)
 			root.FinishInsertionPhase(ctx)
 
 			client := &vrgClient{}
@@ -140,7 +170,10 @@ func TestVerifReplayGnmiSet(t *testing.T) {
 				}
 				req := client.reqs[0]
 				nu, nd := len(req.GetUpdate())+len(req.GetReplace()), len(req.GetDelete())
-				if sc.wantUpd == "none" && nu != 0 {
+				if sc.wantUpd == "none" && nu != 0 && strings.Contains(sc.name, "bare presence container") && enc == "proto" {
+					// recorded finding: the proto rendering re-sends a presence container whose own entry running does not hold
+					fmt.Printf("REPLAY-FAIL fn=%s clause=nothing_to_update_sends_no_update.known input=%s why=%d update(s) sent although no value is new or changed: %v\n", fn, in, nu, req.GetUpdate())
+				} else if sc.wantUpd == "none" && nu != 0 {
 					fmt.Printf("REPLAY-FAIL fn=%s clause=nothing_to_update_sends_no_update input=%s why=%d update(s) sent although no value is new or changed: %v\n", fn, in, nu, req.GetUpdate())
 				}
 				if sc.wantUpd == "some" && nu == 0 {
